@@ -76,7 +76,8 @@ func (w *world) close() {
 // doAdd inserts contract i of version v through AddContract / AddV2Contract.
 // exp is the height the listing filters and sorts on (v1 WindowStart, v2 ExpirationHeight),
 // alt the neighbouring height it must NOT use (v1 WindowEnd, v2 ProofHeight).
-func (w *world) doAdd(tr *vhlib.Trace, v, i, rk int, neg, exp, alt uint64) {
+// insert stores contract i of version v (no trace line)
+func (w *world) insert(v, i, rk int, neg, exp, alt uint64) (bool, string, error) {
 	id := cid(v, i)
 	var err error
 	panicked, msg := vhlib.Try(func() {
@@ -110,6 +111,12 @@ func (w *world) doAdd(tr *vhlib.Trace, v, i, rk int, neg, exp, alt uint64) {
 			err = w.store.AddV2Contract(c, rhp4.TransactionSet{})
 		}
 	})
+	return panicked, msg, err
+}
+
+func (w *world) doAdd(tr *vhlib.Trace, v, i, rk int, neg, exp, alt uint64) {
+	id := cid(v, i)
+	panicked, msg, err := w.insert(v, i, rk, neg, exp, alt)
 	res := "ok"
 	if panicked {
 		res = "panic:" + msg
@@ -212,12 +219,22 @@ type qspec struct {
 	limit, offset                  int
 	sort                           string // "-" = empty string
 	desc                           bool
+	nn                             int // bit k set: the k-th EMPTY list criterion (st, ids, rf, rt, rk) is passed as an empty non-nil slice
 }
 
 func (q qspec) line() string {
-	return fmt.Sprintf("query%d st=%s ids=%s rf=%s rt=%s rk=%s minneg=%d maxneg=%d minexp=%d maxexp=%d limit=%d offset=%d sort=%s desc=%d",
+	return fmt.Sprintf("query%d st=%s ids=%s rf=%s rt=%s rk=%s minneg=%d maxneg=%d minexp=%d maxexp=%d limit=%d offset=%d sort=%s desc=%d nn=%d",
 		q.v, vhlib.FmtList(q.st), vhlib.FmtList(q.ids), vhlib.FmtList(q.rf), vhlib.FmtList(q.rt), vhlib.FmtList(q.rk),
-		q.minNeg, q.maxNeg, q.minExp, q.maxExp, q.limit, q.offset, q.sort, vhlib.B01(q.desc))
+		q.minNeg, q.maxNeg, q.minExp, q.maxExp, q.limit, q.offset, q.sort, vhlib.B01(q.desc), q.nn)
+}
+
+// emptyNonNil: an empty list criterion handed over as an allocated empty slice (what a JSON body with
+// "statuses": [] decodes to) instead of nil; both mean "no constraint"
+func emptyNonNil[T any](xs []T, on bool) []T {
+	if len(xs) == 0 && on {
+		return []T{}
+	}
+	return xs
 }
 
 func cids(v int, is []int) []types.FileContractID {
@@ -257,6 +274,8 @@ func (w *world) doQuery(tr *vhlib.Trace, q qspec) int {
 				}
 				f.Statuses = append(f.Statuses, contracts.ContractStatus(code))
 			}
+			f.Statuses, f.ContractIDs, f.RenewedFrom = emptyNonNil(f.Statuses, q.nn&1 != 0), emptyNonNil(f.ContractIDs, q.nn&2 != 0), emptyNonNil(f.RenewedFrom, q.nn&4 != 0)
+			f.RenewedTo, f.RenterKey = emptyNonNil(f.RenewedTo, q.nn&8 != 0), emptyNonNil(f.RenterKey, q.nn&16 != 0)
 			var cs []contracts.Contract
 			cs, count, err = w.store.Contracts(f)
 			for _, c := range cs {
@@ -269,6 +288,8 @@ func (w *world) doQuery(tr *vhlib.Trace, q qspec) int {
 			for _, s := range q.st {
 				f.Statuses = append(f.Statuses, contracts.V2ContractStatus(s))
 			}
+			f.Statuses, f.ContractIDs, f.RenewedFrom = emptyNonNil(f.Statuses, q.nn&1 != 0), emptyNonNil(f.ContractIDs, q.nn&2 != 0), emptyNonNil(f.RenewedFrom, q.nn&4 != 0)
+			f.RenewedTo, f.RenterKey = emptyNonNil(f.RenewedTo, q.nn&8 != 0), emptyNonNil(f.RenterKey, q.nn&16 != 0)
 			var cs []contracts.V2Contract
 			cs, count, err = w.store.V2Contracts(f)
 			for _, c := range cs {
@@ -317,6 +338,63 @@ func (w *world) doQuery(tr *vhlib.Trace, q qspec) int {
 	}
 	tr.Line(q.line(), fmt.Sprintf("err=%s ids=%s count=%d", class, vhlib.FmtList(got), count))
 	return count
+}
+
+// doConcurrentQuery lists ALL contracts of version v (no criteria, offset 0, a limit above the population)
+// again and again while another goroutine adds k contracts first..first+k-1: whatever the interleaving,
+// the total reported by one call must equal the length of the page that call returns (count and page are
+// one snapshot).  The added contracts are described by ordinary add lines afterwards.
+func (w *world) doConcurrentQuery(tr *vhlib.Trace, v, first, k, rk int, neg, exp uint64) {
+	type addRes struct {
+		i   int
+		err error
+	}
+	done := make(chan []addRes)
+	go func() {
+		var out []addRes
+		for i := first; i < first+k; i++ {
+			_, _, err := w.insert(v, i, rk, neg, exp, exp+10)
+			out = append(out, addRes{i, err})
+		}
+		done <- out
+	}()
+	calls, torn, worst := 0, 0, ""
+	var adds []addRes
+	for running := true; running; {
+		select {
+		case adds = <-done:
+			running = false
+		default:
+		}
+		var n, count int
+		var err error
+		if v == 1 {
+			var cs []contracts.Contract
+			cs, count, err = w.store.Contracts(contracts.ContractFilter{Limit: 100000})
+			n = len(cs)
+		} else {
+			var cs []contracts.V2Contract
+			cs, count, err = w.store.V2Contracts(contracts.V2ContractFilter{Limit: 100000})
+			n = len(cs)
+		}
+		calls++
+		// the store caps a page at 100 rows (limit clamp): above that only "a full page" can be checked
+		if err == nil && n != count && !(count > 100 && n == 100) {
+			torn++
+			worst = fmt.Sprintf("%d!=%d", count, n)
+		}
+	}
+	tr.Count(fmt.Sprintf("cquery%d", v))
+	tr.Line(fmt.Sprintf("cquery v=%d first=%d k=%d rk=%d neg=%d exp=%d", v, first, k, rk, neg, exp), fmt.Sprintf("calls=%d torn=%d worst=%s", calls, torn, map[bool]string{true: "-", false: worst}[worst == ""]))
+	for _, a := range adds {
+		res := "ok"
+		if a.err != nil {
+			res = "err"
+		} else {
+			w.idx[v][cid(v, a.i)] = a.i
+		}
+		tr.Line(fmt.Sprintf("add v=%d i=%d rk=%d neg=%d exp=%d alt=%d", v, a.i, rk, neg, exp, exp+10), "res="+res+" "+w.readBack(tr, v, a.i))
+	}
 }
 
 func boundClass(mn, mx uint64) string {
@@ -481,6 +559,9 @@ func genBounds(r *vhlib.Rand, pool []uint64, big bool) (uint64, uint64) {
 func genCriteria(r *vhlib.Rand, p *pop, v int) qspec {
 	q := qspec{v: v, sort: vhlib.Pick(r, "status", "status", "negotiationHeight", "negotiationHeight", "expirationHeight", "expirationHeight", "-", "bogus"),
 		desc: r.Chance(1, 2)}
+	if r.Chance(1, 4) {
+		q.nn = r.Intn(32) // some of the empty list criteria as empty non-nil slices
+	}
 	if r.Chance(1, 10) {
 		return q // empty criteria
 	}
@@ -561,6 +642,12 @@ func genHistory(t *testing.T, tr *vhlib.Trace, r *vhlib.Rand, nq int, big bool) 
 	defer w.close()
 	p := genPopulation(w, tr, r, big)
 	for done := 0; done < nq; {
+		if r.Chance(1, 40) {
+			// listings racing with formations (the new contracts join the population)
+			v, k := 1+r.Intn(2), 8+r.Intn(25)
+			w.doConcurrentQuery(tr, v, p.n[v]+1, k, r.Intn(4), uint64(r.Intn(60)), uint64(1+r.Intn(80)))
+			p.n[v] += k
+		}
 		v := 1 + r.Intn(2)
 		q := genCriteria(r, p, v)
 		n := p.n[v]
@@ -614,7 +701,9 @@ func replay(t *testing.T, tr *vhlib.Trace, ops []vhlib.ParsedLine) {
 			w.doQuery(tr, qspec{v: int(op.Op[5] - '0'), st: op.List("st"), ids: ints(op.U64List("ids")), rf: ints(op.U64List("rf")),
 				rt: ints(op.U64List("rt")), rk: ints(op.U64List("rk")), minNeg: op.U64("minneg"), maxNeg: op.U64("maxneg"),
 				minExp: op.U64("minexp"), maxExp: op.U64("maxexp"), limit: op.Int("limit"), offset: op.Int("offset"),
-				sort: op.Args["sort"], desc: op.U64("desc") == 1})
+				sort: op.Args["sort"], desc: op.U64("desc") == 1, nn: op.Int("nn")})
+		case "cquery":
+			w.doConcurrentQuery(tr, op.Int("v"), op.Int("first"), op.Int("k"), op.Int("rk"), op.U64("neg"), op.U64("exp"))
 		}
 	}
 }
